@@ -4,6 +4,13 @@
 //! a thread with a time limit, so that a hang is an observation.  The case embeds the library
 //! case of lib_stage.rs (reader blocks, arena, collected trees) so that the Coq side builds
 //! the model graph from the same inputs.
+//!
+//! Tree -> arena (stages 5-8 of Check_C17.v, the tie of TreeBuild.v to the code): in the CLI
+//! path the ARENA of the fresh graph after `build_key_from_iter` (every slot: kind with its
+//! lines, prev, next, child) and the tree `collect`ed back from it are dumped too, and a
+//! stream of hand-made trees (`"trees"` of an input: valid shapes, leaves / references / tables
+//! with children, inner Document nodes with following siblings, roots that are not documents,
+//! childless documents) goes through the same call under catch_unwind.
 use crate::dump;
 use crate::gal::*;
 use crate::gen::{dir_of, rel_url};
@@ -12,6 +19,9 @@ use crate::rng::Rng;
 use crate::PropModule;
 use liwe::graph::{Graph, GraphContext};
 use liwe::model::config::MarkdownOptions;
+use liwe::model::document::LinkType;
+use liwe::model::graph::GraphInline;
+use liwe::model::node::{ColumnAlignment, Node, Reference, ReferenceType, Table};
 use liwe::model::tree::{Tree, TreeIter};
 use liwe::model::Key;
 use serde_json::{json, Value};
@@ -232,6 +242,160 @@ fn build_lib(rng: &mut Rng, shape: &str, n: usize, max_refs: usize, nested: bool
         .collect()
 }
 
+// ---------------------------------------------------------------- hand-made trees
+
+/// JSON form of a `Tree`: {"n": kind, "s": text / key / content, "t": reference text / language,
+/// "w": reference type, "id": id, "c": children}
+fn jnode(kind: &str, s: &str, c: Vec<Value>) -> Value {
+    json!({"n": kind, "s": s, "c": c})
+}
+
+const CONTAINERS: &[&str] = &["sec", "sec", "sec", "quote", "bl", "ol"];
+const LEAVES: &[&str] = &["leaf", "leaf", "raw", "rule", "ref", "ref", "table"];
+
+struct TreeGen {
+    /// chance (of 8) that a node which cannot have children gets some
+    leaf_kids: usize,
+    /// chance (of 8) that a position below the root holds a Document node
+    inner_doc: usize,
+    budget: usize,
+    count: usize,
+}
+
+impl TreeGen {
+    fn text(&mut self, rng: &mut Rng, what: &str) -> String {
+        self.count += 1;
+        match rng.below(6) {
+            0 => String::new(),
+            1 => format!("{}{}|em{}", what, self.count, self.count),
+            2 => format!("{}{}|em|ln{}", what, self.count, self.count),
+            _ => format!("{}{}", what, self.count),
+        }
+    }
+
+    fn leaf(&mut self, rng: &mut Rng, kind: &str) -> Value {
+        match kind {
+            "raw" => {
+                let mut v = jnode("raw", &format!("code{}\n  more", self.count), vec![]);
+                if rng.chance(1, 2) { v["t"] = json!("rs"); }
+                v
+            }
+            "rule" => jnode("rule", "", vec![]),
+            "ref" => {
+                let mut v = jnode("ref", *rng.pick(&["k", "d/k2", "missing", "t"]), vec![]);
+                v["t"] = json!(*rng.pick(&["", "title", "other text"]));
+                v["w"] = json!(rng.below(3));
+                v
+            }
+            "table" => jnode("table", &self.text(rng, "cell"), vec![]),
+            _ => { let t = self.text(rng, "p"); jnode("leaf", &t, vec![]) }
+        }
+    }
+
+    fn forest(&mut self, rng: &mut Rng, depth: usize, max: usize) -> Vec<Value> {
+        let n = rng.range(0, max);
+        let mut out = vec![];
+        for _ in 0..n {
+            if self.budget == 0 { break; }
+            out.push(self.tree(rng, depth));
+        }
+        out
+    }
+
+    fn tree(&mut self, rng: &mut Rng, depth: usize) -> Value {
+        self.budget = self.budget.saturating_sub(1);
+        let mut v = if rng.below(8) < self.inner_doc {
+            let kids = if depth == 0 { vec![] } else { self.forest(rng, depth - 1, 3) };
+            jnode("doc", *rng.pick(&["t", "inner", "d/x"]), kids)
+        } else if depth > 0 && rng.chance(1, 2) {
+            let kind = *rng.pick(CONTAINERS);
+            let kids = self.forest(rng, depth - 1, 3);
+            let t = if kind == "sec" { self.text(rng, "h") } else { String::new() };
+            jnode(kind, &t, kids)
+        } else {
+            let kind = *rng.pick(LEAVES);
+            let mut v = self.leaf(rng, kind);
+            if depth > 0 && rng.below(8) < self.leaf_kids {
+                v["c"] = json!(self.forest(rng, depth - 1, 2));
+            }
+            v
+        };
+        if rng.chance(1, 3) { v["id"] = json!(rng.below(50)); }
+        v
+    }
+}
+
+const TREE_MODES: &[&str] = &["valid", "leafkids", "innerdoc", "mixed", "rootless"];
+
+fn gen_tree(rng: &mut Rng, mode: &str) -> Value {
+    let (leaf_kids, inner_doc) = match mode {
+        "leafkids" => (2, 0),
+        "innerdoc" => (0, 1),
+        "mixed" | "rootless" => (1, 1),
+        _ => (0, 0),
+    };
+    let mut g = TreeGen { leaf_kids, inner_doc, budget: rng.range(1, 40), count: 0 };
+    let depth = rng.range(1, 5);
+    if mode == "rootless" {
+        // the root is whatever comes: a section, a leaf, a list, a childless document
+        match rng.below(4) {
+            0 => jnode("doc", "t", vec![]),
+            1 => { let kids = g.forest(rng, depth, 3); jnode(*rng.pick(CONTAINERS), "root", kids) }
+            _ => g.tree(rng, depth),
+        }
+    } else {
+        let kids = g.forest(rng, depth, 4);
+        jnode("doc", *rng.pick(&["t", "other"]), kids)
+    }
+}
+
+fn jinlines(s: &str) -> Vec<GraphInline> {
+    if s.is_empty() {
+        return vec![];
+    }
+    s.split('|')
+        .enumerate()
+        .map(|(i, p)| match i % 3 {
+            0 => GraphInline::Str(p.to_string()),
+            1 => GraphInline::Emph(vec![GraphInline::Str(p.to_string())]),
+            _ => GraphInline::Link(format!("u/{}", p), String::new(), LinkType::Regular, vec![GraphInline::Str(p.to_string())]),
+        })
+        .collect()
+}
+
+fn jtree(v: &Value) -> Tree {
+    let s = v["s"].as_str().unwrap_or("");
+    let node = match v["n"].as_str().unwrap_or("leaf") {
+        "doc" => Node::Document(Key::from_file_name(s)),
+        "sec" => Node::Section(jinlines(s)),
+        "quote" => Node::Quote(),
+        "bl" => Node::BulletList(),
+        "ol" => Node::OrderedList(),
+        "raw" => Node::Raw(v["t"].as_str().map(|l| l.to_string()), s.to_string()),
+        "rule" => Node::HorizontalRule(),
+        "ref" => Node::Reference(Reference {
+            key: Key::from_file_name(s),
+            text: v["t"].as_str().unwrap_or("").to_string(),
+            reference_type: match v["w"].as_u64().unwrap_or(0) {
+                1 => ReferenceType::WikiLink,
+                2 => ReferenceType::WikiLinkPiped,
+                _ => ReferenceType::Regular,
+            },
+        }),
+        "table" => Node::Table(Table {
+            header: vec![jinlines("h1"), jinlines(s)],
+            alignment: vec![ColumnAlignment::None, ColumnAlignment::Right],
+            rows: vec![vec![jinlines(s), vec![]], vec![jinlines("x|y"), jinlines("z")]],
+        }),
+        _ => Node::Leaf(jinlines(s)),
+    };
+    Tree {
+        id: v["id"].as_u64(),
+        node,
+        children: v["c"].as_array().map(|a| a.iter().map(jtree).collect()).unwrap_or_default(),
+    }
+}
+
 pub fn generate(rng: &mut Rng, thorough: bool) -> Vec<Value> {
     let mut out = vec![];
     let n_lib = if thorough { 1400 } else { 84 };
@@ -259,6 +423,7 @@ pub fn generate(rng: &mut Rng, thorough: bool) -> Vec<Value> {
     // depth up to 255 on graphs whose expansion stays linear: chains, rings with one reference
     // per note, a single self-loop
     let n_deep = if thorough { 60 } else { 9 };
+    let mut deep = vec![];
     for i in 0..n_deep {
         let shape = ["chain", "self1", "ring1"][i % 3];
         let n = match shape { "self1" => 1, "chain" => rng.range(2, 7), _ => rng.range(1, 3) };
@@ -275,10 +440,29 @@ pub fn generate(rng: &mut Rng, thorough: bool) -> Vec<Value> {
         let k0 = notes[0].key.clone();
         let depths: Vec<usize> = match i % 3 { 0 => vec![7, 255], 1 => vec![100, 255], _ => vec![6, 64, 255] };
         let squash = depths.into_iter().filter(|d| est(&notes, &k0, *d, 2000) <= 2000).map(|d| (k0.clone(), d)).collect();
-        out.push(lib_json(&notes, &format!("deep-{}", shape), squash, false));
+        deep.push(lib_json(&notes, &format!("deep-{}", shape), squash, false));
     }
+    // the deep cases are the expensive ones for coqc (terms nested 255 deep): spread them evenly
+    // among the others, so that they do not all land in the same shard
+    let step = (out.len() / deep.len().max(1)).max(1);
+    let libs = std::mem::take(&mut out);
+    let mut deep = deep.into_iter();
+    for (i, l) in libs.into_iter().enumerate() {
+        out.push(l);
+        if (i + 1) % step == 0 {
+            if let Some(d) = deep.next() { out.push(d); }
+        }
+    }
+    out.extend(deep);
     // a note that squashes to nothing (empty note / only references to empty notes): CLI path
     out.push(json!({"ext": "", "kind": "empty", "notes": [["n1", "[to n2](n2)\n"], ["n2", ""]], "squash": [["n1", 0], ["n1", 1], ["n2", 0], ["n2", 3]]}));
+    // hand-made trees for `build_key_from_iter` on a fresh graph (six per input)
+    let n_tb = if thorough { 200 } else { 15 };
+    for i in 0..n_tb {
+        let mode = TREE_MODES[i % TREE_MODES.len()];
+        let trees: Vec<Value> = (0..6).map(|j| json!([if j % 3 == 2 { "d/t" } else { "t" }, gen_tree(rng, mode)])).collect();
+        out.push(json!({"ext": "", "kind": format!("trees-{}", mode), "notes": [["n1", "# n1\n\ntext\n"]], "squash": [], "trees": trees}));
+    }
     out
 }
 
@@ -398,12 +582,40 @@ pub fn execute(v: &Value) -> String {
                 .iter()
                 .map(|p| {
                     let key = Key::from_file_name(p[0].as_str().unwrap());
-                    gapp("SO", &[gstr(&key.to_string()), gn(p[1].as_u64().unwrap_or(0).min(255)), gn(ABORTED), "(Panic \"aborted\")".into(), gn(ABORTED), "(Panic \"aborted\")".into()])
+                    let aborted = || "(Panic \"aborted\")".to_string();
+                    gapp("SO", &[gstr(&key.to_string()), gn(p[1].as_u64().unwrap_or(0).min(255)), gn(ABORTED), aborted(), gn(ABORTED), aborted(), aborted(), aborted()])
                 })
                 .collect();
-            gapp("Case", &[lc, glist(&obs)])
+            let tbs: Vec<String> = v["trees"]
+                .as_array()
+                .cloned()
+                .unwrap_or_default()
+                .iter()
+                .map(|p| {
+                    let key = Key::from_file_name(p[0].as_str().unwrap_or("t"));
+                    gapp("TB", &[gstr(&key.to_string()), dump::tree(&jtree(&p[1])), "(Panic \"aborted\")".into(), "(Panic \"aborted\")".into()])
+                })
+                .collect();
+            gapp("Case", &[lc, glist(&obs), glist(&tbs)])
         }
     }
+}
+
+/// main.rs:171-180 with the arena in view: `Graph::new()`, `build_key_from_iter(key, TreeIter::new(tree))`
+/// (a panic there is the caller's observation), then every slot of that graph, the tree
+/// `collect`ed back from it and the exported text
+fn cli_build(k: &Key, t: &Tree, print: bool) -> (Result<String, String>, Result<String, String>, Result<String, String>) {
+    let mut patch = Graph::new();
+    patch.build_key_from_iter(k, TreeIter::new(t));
+    let arena = if print { Ok(dump::arena(&patch)) } else { Err("harness: arena not printed".to_string()) };
+    let back = catch_unwind(AssertUnwindSafe(|| (&patch).collect(k))).map_err(lib_stage::panic_msg);
+    let back = match back {
+        Ok(b) if print => Ok(dump::tree(&b)),
+        Ok(_) => Err("harness: tree not printed".to_string()),
+        Err(e) => Err(e),
+    };
+    let text = catch_unwind(AssertUnwindSafe(|| patch.export_key(k).unwrap())).map_err(lib_stage::panic_msg);
+    (arena, back, text)
 }
 
 fn execute_here(v: &Value) -> String {
@@ -425,20 +637,18 @@ fn execute_here(v: &Value) -> String {
             let k = key.clone();
             let (oc, tree) = timed(move || (&g).squash(&k, depth), limit);
             // CLI path on the tree (main.rs:171-180)
-            let (coc, text) = match &tree {
+            let (coc, built) = match &tree {
                 Ok(t) => {
                     let t = t.clone();
                     let k: Key = key_s.clone().into();
-                    timed(
-                        move || {
-                            let mut patch = Graph::new();
-                            patch.build_key_from_iter(&k, TreeIter::new(&t));
-                            patch.export_key(&k).unwrap()
-                        },
-                        limit,
-                    )
+                    let print = node_count(&t) <= 20000;
+                    timed(move || cli_build(&k, &t, print), limit)
                 }
                 Err(_) => (PANICKED, Err("no tree".to_string())),
+            };
+            let (coc, arena, back, text) = match built {
+                Ok((a, b, x)) => (if x.is_err() { PANICKED } else { coc }, a, b, x),
+                Err(e) => (coc, Err(e.clone()), Err(e.clone()), Err(e)),
             };
             let tree_term = match &tree {
                 Ok(t) if node_count(t) > 20000 => Err(format!("harness: tree of {} nodes not printed", node_count(t))),
@@ -447,9 +657,32 @@ fn execute_here(v: &Value) -> String {
             };
             obs.push(gapp(
                 "SO",
-                &[gstr(&key.to_string()), gn(depth as u64), gn(oc), lib_stage::gres(tree_term), gn(coc), lib_stage::gres(text.map(|t| gstr_long(&t)))],
+                &[
+                    gstr(&key.to_string()),
+                    gn(depth as u64),
+                    gn(oc),
+                    lib_stage::gres(tree_term),
+                    gn(coc),
+                    lib_stage::gres(text.map(|t| gstr_long(&t))),
+                    lib_stage::gres(arena),
+                    lib_stage::gres(back),
+                ],
             ));
         }
     }
-    gapp("Case", &[lc, glist(&obs)])
+    // hand-made trees through the same call
+    let mut tbs = vec![];
+    for p in v["trees"].as_array().cloned().unwrap_or_default() {
+        let k: Key = p[0].as_str().unwrap_or("t").to_string().into();
+        let t = jtree(&p[1]);
+        let tree_term = dump::tree(&t);
+        let k2 = k.clone();
+        let (_, built) = timed(move || cli_build(&k2, &t, true), limit);
+        let (arena, back) = match built {
+            Ok((a, b, _)) => (a, b),
+            Err(e) => (Err(e.clone()), Err(e)),
+        };
+        tbs.push(gapp("TB", &[gstr(&k.to_string()), tree_term, lib_stage::gres(arena), lib_stage::gres(back)]));
+    }
+    gapp("Case", &[lc, glist(&obs), glist(&tbs)])
 }
